@@ -12,6 +12,25 @@ import (
 // stream bits (C04): alterations of valid checksummed frames
 
 func bitsCase(cw *caseWriter, p []byte, label string, mustReject bool) {
+	// the same bytes delivered block by block must not be accepted either (the client reads one block per call by default)
+	if mustReject && len(p) >= 64 && len(p) <= 256 {
+		var chunks [][]byte
+		for i := 0; i < len(p); i += 32 {
+			chunks = append(chunks, p[i:i+32])
+		}
+		res := readChunks(identityMode{}, chunks)
+		var hs []string
+		for _, c := range chunks {
+			hs = append(hs, hexOf(c))
+		}
+		prop := "pass"
+		for _, r := range res {
+			if strings.HasPrefix(r, "ok ") {
+				prop = "FAIL C04 altered checksummed frame accepted when delivered block by block: " + trunc(r, 100)
+			}
+		}
+		cw.add("decs "+strings.Join(hs, " "), strings.Join(res, " | "), "N "+label+" chunked", prop)
+	}
 	got := readOnce(identityMode{}, p)
 	prop := "pass"
 	if got == "panic" || got == "hang" {
